@@ -1,11 +1,472 @@
 package main
 
-// Stream `vhosts` (virtual hosts, domains, SortVHostRoutes) - filled in below.
+// Stream `vhosts`: virtual-host domains (generateVirtualHostDomains, dedupeDomains through the verif
+// hook), virtual-host selection by authority (reference interpreter), SortVHostRoutes,
+// model.MostSpecificHostMatch and selectVirtualServices.
 
-type vhState struct{}
+import (
+	"fmt"
+	"net"
+	"os"
+	"sort"
+	"strconv"
+	"strings"
 
-func (s *state) vhStep(stream string, f []string) (string, bool) { return "", false }
+	route "github.com/envoyproxy/go-control-plane/envoy/config/route/v3"
 
-func genVhosts(seed uint64, n int, out string) {}
+	networking "istio.io/api/networking/v1alpha3"
+	"istio.io/istio/pilot/pkg/model"
+	"istio.io/istio/pilot/pkg/networking/core"
+	istioroute "istio.io/istio/pilot/pkg/networking/core/route"
+	"istio.io/istio/pilot/pkg/serviceregistry/provider"
+	"istio.io/istio/pkg/config"
+	"istio.io/istio/pkg/config/host"
+	"istio.io/istio/pkg/config/schema/gvk"
+	"istio.io/istio/pkg/util/sets"
+	"verifharness/internal/wire"
+)
 
-func oracleVhosts(in, out string) {}
+type vhState struct {
+	known  sets.String
+	names  sets.String
+	vhd    sets.String
+	vhosts []*route.VirtualHost
+	acc    []*route.Route
+}
+
+func (v *vhState) init() {
+	if v.known == nil {
+		v.known, v.names, v.vhd = sets.New[string](), sets.New[string](), sets.New[string]()
+	}
+}
+
+// realDomains calls the REAL generateVirtualHostDomains.
+func realDomains(hostname string, aliases []string, pt bool, addr string, listenerPort, port int, proxyDomain string, proxyless bool) ([]string, []string) {
+	svc := &model.Service{Hostname: host.Name(hostname), DefaultAddress: addr}
+	for _, a := range aliases {
+		svc.Attributes.Aliases = append(svc.Attributes.Aliases, model.NamespacedHostname{Hostname: host.Name(a), Namespace: "default"})
+	}
+	if pt {
+		svc.Resolution = model.Passthrough
+		svc.Attributes.ServiceRegistry = provider.Kubernetes
+	}
+	node := &model.Proxy{Type: model.SidecarProxy, DNSDomain: proxyDomain, Metadata: &model.NodeMetadata{}}
+	if proxyless {
+		node.Metadata.Generator = "grpc"
+	}
+	return core.VerifC12GenerateVirtualHostDomains(svc, listenerPort, port, node)
+}
+
+// selectVHostRef: Envoy's documented domain search order - exact, longest suffix wildcard `*x`,
+// longest prefix wildcard `x*`, `*`; host comparison is case-insensitive; a wildcard does not match
+// the empty string.
+func selectVHostRef(vhs []*route.VirtualHost, authority string) *route.VirtualHost {
+	h := asciiLower(authority)
+	for _, v := range vhs {
+		for _, d := range v.Domains {
+			if asciiLower(d) == h {
+				return v
+			}
+		}
+	}
+	var best *route.VirtualHost
+	bl := 0
+	for _, v := range vhs {
+		for _, d := range v.Domains {
+			if len(d) > 1 && d[0] == '*' {
+				suf := asciiLower(d[1:])
+				if len(h) > len(suf) && strings.HasSuffix(h, suf) && len(d) > bl {
+					best, bl = v, len(d)
+				}
+			}
+		}
+	}
+	if best != nil {
+		return best
+	}
+	for _, v := range vhs {
+		for _, d := range v.Domains {
+			if len(d) > 1 && d[0] != '*' && d[len(d)-1] == '*' {
+				pre := asciiLower(d[:len(d)-1])
+				if len(h) > len(pre) && strings.HasPrefix(h, pre) && len(d) > bl {
+					best, bl = v, len(d)
+				}
+			}
+		}
+	}
+	if best != nil {
+		return best
+	}
+	for _, v := range vhs {
+		for _, d := range v.Domains {
+			if d == "*" {
+				return v
+			}
+		}
+	}
+	return nil
+}
+
+func mkVSConfigs(spec string) []*config.Config {
+	var out []*config.Config
+	if spec == "-" {
+		return out
+	}
+	for i, hs := range strings.Split(spec, ";") {
+		out = append(out, &config.Config{
+			Meta: config.Meta{GroupVersionKind: gvk.VirtualService, Name: "vs" + strconv.Itoa(i), Namespace: "default"},
+			Spec: &networking.VirtualService{Hosts: wire.DecList(hs)},
+		})
+	}
+	return out
+}
+
+func (s *state) vhStep(stream string, f []string) (string, bool) {
+	v := &s.vh
+	v.init()
+	switch f[0] {
+	case "dom": // dom <host> <aliases> <isIPs> <pt> <addr> <listenerPort> <port> <proxyDomain> <proxyless>
+		d, a := realDomains(wire.Dec(f[1]), wire.DecList(f[2]), f[4] == "1", wire.Dec(f[5]), atoi(f[6]), atoi(f[7]), wire.Dec(f[8]), f[9] == "1")
+		return "D:" + wire.EncList(d) + " A:" + wire.EncList(a), true
+	case "known":
+		v.known = sets.New(wire.DecList(f[1])...)
+		return "ok", true
+	case "vh": // vh <name> <domains> <altHosts>: one call of the buildVirtualHost closure (glue) around the REAL dedupeDomains
+		name := wire.Dec(f[1])
+		if v.names.InsertContains(name) {
+			return "dup-name", true
+		}
+		domains := append([]string(nil), wire.DecList(f[2])...)
+		domains = core.VerifC12DedupeDomains(domains, v.vhd, wire.DecList(f[3]), v.known)
+		if len(domains) == 0 {
+			return "empty", true
+		}
+		v.vhosts = append(v.vhosts, &route.VirtualHost{Name: name, Domains: domains})
+		return "kept:" + wire.EncList(domains), true
+	case "sel": // sel <authority>
+		if vh := selectVHostRef(v.vhosts, wire.Dec(f[1])); vh != nil {
+			return wire.Enc(vh.Name), true
+		}
+		return "none", true
+	case "msh": // msh <needle> <specific> <wildcard>
+		sp, wc := map[host.Name]int{}, map[host.Name]int{}
+		for i, h := range wire.DecList(f[2]) {
+			sp[host.Name(h)] = i
+		}
+		for i, h := range wire.DecList(f[3]) {
+			wc[host.Name(h)] = i
+		}
+		if h, _, ok := model.MostSpecificHostMatch(host.Name(wire.Dec(f[1])), sp, wc); ok {
+			return wire.Enc(string(h)), true
+		}
+		return "none", true
+	case "selvs": // selvs <service hosts> <vs1 hosts;vs2 hosts;...>
+		svcs := map[host.Name]*model.Service{}
+		for _, h := range wire.DecList(f[1]) {
+			svcs[host.Name(h)] = &model.Service{Hostname: host.Name(h)}
+		}
+		var names []string
+		for _, c := range core.VerifC12SelectVirtualServices(mkVSConfigs(f[2]), svcs) {
+			names = append(names, c.Name)
+		}
+		return wire.EncList(names), true
+	case "acc": // append the routes of the last build (routes of one more VirtualService on the same host)
+		v.acc = append(v.acc, s.routes...)
+		return "ok", true
+	case "sortv":
+		return showRoutes(istioroute.SortVHostRoutes(v.acc)), true
+	case "sreq":
+		q := parseReq(f)
+		sorted := istioroute.SortVHostRoutes(v.acc)
+		return showDecision(evalRoutes(sorted, q)) + " " + showDecision(evalRoutes(v.acc, q)) + " safe=" +
+			wire.B(sortSafe(v.acc, istioroute.IsCatchAllRoute, q)), true
+	}
+	return "", false
+}
+
+// ---------------------------------------------------------------- generator
+
+var (
+	domHosts = []string{
+		"reviews.default.svc.cluster.local", "ratings.default.svc.cluster.local", "reviews.other.svc.cluster.local",
+		"a.b.default.svc.cluster.local", "default.svc.cluster.local", "foo.svc.cluster.local", "reviews.default", "reviews",
+		"api.example.com", "example.com", "foo.local.campus.net", "foo.bar.campus.net", "campus.net", "x.svc.", "svc.svc.svc.cluster.local",
+		"10.1.2.3", "2001:db8::1", "Reviews.Default.svc.cluster.local", "foo.com.default.svc.cluster.local", "foo.com",
+	}
+	proxyDomains = []string{
+		"default.svc.cluster.local", "other.svc.cluster.local", "local.campus.net", "remote.campus.net", "", "example.com",
+		"svc.cluster.local", ".svc.cluster.local", "cluster.local", "default.svc.", "com",
+	}
+)
+
+func isIPTok(hs []string) string {
+	out := make([]string, len(hs))
+	for i, h := range hs {
+		out[i] = wire.B(net.ParseIP(h) != nil)
+	}
+	return wire.EncList(out)
+}
+
+func genVhosts(seed uint64, n int, out string) {
+	root := wire.NewRng(seed*1000003 + 77)
+	o := wire.Create(out)
+	defer o.Close()
+	for i := 0; i < n; i++ {
+		r := root.Fork()
+		o.Line("case", strconv.Itoa(i), "vhosts")
+		switch k := r.Intn(10); {
+		case k < 5: // domains, dedupe, selection
+			pd := wire.Pick(r, proxyDomains)
+			lp := wire.Pick(r, []int{0, 80, 8080})
+			proxyless := r.Chance(1, 8)
+			hosts := wire.Subset(r, domHosts, 1, 4)
+			if len(hosts) == 0 {
+				hosts = []string{wire.Pick(r, domHosts)}
+			}
+			type gen struct {
+				name     string
+				dom, alt []string
+			}
+			var gens []gen
+			var known []string
+			for _, h := range hosts {
+				port := wire.Pick(r, []int{80, 8080, 9080})
+				var aliases []string
+				if r.Chance(1, 6) {
+					aliases = []string{wire.Pick(r, domHosts)}
+				}
+				addr := wire.Pick(r, []string{"", "10.0.0.1", "0.0.0.0", "10.0.0.2", "fd00::1"})
+				pt := r.Chance(1, 8)
+				o.Line("dom", wire.Enc(h), wire.EncList(aliases), isIPTok(append([]string{h}, aliases...)), wire.B(pt), wire.Enc(addr),
+					strconv.Itoa(lp), strconv.Itoa(port), wire.Enc(pd), wire.B(proxyless))
+				d, a := realDomains(h, aliases, pt, addr, lp, port, pd, proxyless)
+				gens = append(gens, gen{net.JoinHostPort(h, strconv.Itoa(port)), d, a})
+				known = append(known, net.JoinHostPort(h, strconv.Itoa(port)), h)
+			}
+			// VirtualService hosts that are not services, catch-all, duplicates
+			if r.Chance(1, 2) {
+				h := wire.Pick(r, []string{"*.example.com", "*.com", "ext.example.org", "*", "reviews", "Reviews.default", "api.*"})
+				g := gen{name: net.JoinHostPort(h, "80"), dom: []string{h, net.JoinHostPort(h, "80")}}
+				if r.Chance(1, 2) {
+					gens = append([]gen{g}, gens...)
+				} else {
+					gens = append(gens, g)
+				}
+			}
+			if r.Chance(1, 4) && len(gens) > 0 {
+				gens = append(gens, gens[r.Intn(len(gens))])
+			}
+			if r.Chance(3, 4) {
+				o.Line("known", wire.EncList(known))
+			}
+			var allDomains []string
+			for _, g := range gens {
+				o.Line("vh", wire.Enc(g.name), wire.EncList(g.dom), wire.EncList(g.alt))
+				allDomains = append(allDomains, g.dom...)
+			}
+			for k := 0; k < 6 && len(allDomains) > 0; k++ {
+				a := wire.Pick(r, allDomains)
+				switch r.Intn(6) {
+				case 0:
+					a = flipCase(r, a)
+				case 1:
+					a = oneOff(r, a)
+				case 2:
+					a = "x." + strings.TrimPrefix(a, "*.")
+				case 3:
+					a = wire.Pick(r, []string{"www.example.com", "a.b.com", "example.com", ".example.com", "api.v1", "api.", "zzz", ""})
+				}
+				o.Line("sel", wire.Enc(a))
+			}
+		case k < 8: // SortVHostRoutes over the routes of several VirtualServices bound to one host
+			s := newState()
+			nvs := 2 + r.Intn(2)
+			p := genProxy(r)
+			o.Line("proxy", wire.Enc(p.ns), encPairs(p.labels), wire.EncList(p.gws))
+			port := wire.Pick(r, ports)
+			var vss []*networking.VirtualService
+			for k := 0; k < nvs; k++ {
+				vsf := []string{"vs", "vs" + strconv.Itoa(k), "default", "plain", wire.EncList([]string{"api.example.com"})}
+				s.apply(vsf)
+				o.Line(vsf...)
+				nr := 1 + r.Intn(3)
+				for j := 0; j < nr; j++ {
+					h := genRule(r, "requests", j, false, false)
+					h.Redirect = nil
+					if h.DirectResponse == nil && len(h.Route) == 0 {
+						h.Route = []*networking.HTTPRouteDestination{{Destination: genDest(r), Weight: 1}}
+					}
+					s.vs.Http = append(s.vs.Http, h)
+					emitRule(o, h)
+				}
+				vss = append(vss, s.vs)
+				o.Line("build", strconv.Itoa(port))
+				o.Line("acc")
+			}
+			o.Line("sortv")
+			all := &networking.VirtualService{}
+			for _, v := range vss {
+				all.Http = append(all.Http, v.Http...)
+			}
+			for _, q := range synthRequests(r, all, 6+r.Intn(5)) {
+				f := []string{"sreq", wire.Enc(q.path), encPairs(q.query), wire.Enc(q.method), wire.Enc(q.authority), wire.Enc(q.scheme), encPairs(q.headers),
+					encPairs(regexTable(all, q))}
+				o.Line(f...)
+			}
+		case k < 9: // most specific host
+			wc := wire.Subset(r, []string{"*", "*.com", "*.example.com", "*.api.example.com", "*.org", "*.cluster.local", "*.default.svc.cluster.local", "*e.com"}, 1, 2)
+			sp := wire.Subset(r, []string{"api.example.com", "example.com", "reviews.default.svc.cluster.local", "a.api.example.com"}, 1, 2)
+			for k := 0; k < 4; k++ {
+				needle := wire.Pick(r, []string{"api.example.com", "a.api.example.com", "example.com", "x.org", "reviews.default.svc.cluster.local",
+					"*.example.com", "*.api.example.com", "*.x.example.com", "com", "*", "service.com"})
+				o.Line("msh", wire.Enc(needle), wire.EncList(sp), wire.EncList(wc))
+			}
+		default: // selectVirtualServices
+			svcs := wire.Subset(r, []string{"api.example.com", "*.example.com", "reviews.default.svc.cluster.local", "*.cluster.local", "foo.com", "*.org"}, 1, 2)
+			var vss []string
+			nv := 1 + r.Intn(4)
+			for k := 0; k < nv; k++ {
+				hs := wire.Subset(r, []string{"api.example.com", "API.example.com", "*.example.com", "*.com", "reviews.default.svc.cluster.local", "x.org", "*.x.org",
+					"*.local", "other.net", "*"}, 1, 3)
+				if len(hs) == 0 {
+					hs = []string{"none.example.net"}
+				}
+				vss = append(vss, wire.EncList(hs))
+			}
+			o.Line("selvs", wire.EncList(svcs), strings.Join(vss, ";"))
+		}
+	}
+}
+
+// ---------------------------------------------------------------- oracle
+
+// altHostSound: an expanded (alt) host is a legitimate abbreviation of the service hostname from the
+// proxy's DNS domain: the hostname itself (absolute form), or a name that, completed with a label
+// suffix of the proxy's domain, is the hostname.
+func altHostSound(alt, hostname, proxyDomain string) bool {
+	a := alt
+	if i := strings.LastIndex(a, ":"); i >= 0 && !strings.HasSuffix(a, "]") && !strings.Contains(hostname, ":") {
+		a = a[:i]
+	}
+	if strings.HasPrefix(a, "[") {
+		return true // IPv6 literal forms are not DNS abbreviations
+	}
+	if a == hostname+"." || a == hostname {
+		return true
+	}
+	labels := strings.Split(proxyDomain, ".")
+	for i := range labels {
+		suf := strings.Join(labels[i:], ".")
+		if suf != "" && a+"."+suf == hostname {
+			return true
+		}
+	}
+	return false
+}
+
+func oracleVhosts(in, out string) {
+	lines := wire.ReadLines(in)
+	o := wire.Create(out)
+	defer o.Close()
+	s := newState()
+	verdict := ""
+	started := false
+	flush := func() {
+		if started {
+			// domains_unique on the REAL dedupeDomains output
+			seen := map[string]string{}
+			for _, v := range s.vh.vhosts {
+				for _, d := range v.Domains {
+					k := strings.ToLower(d)
+					if prev, ok := seen[k]; ok && verdict == "" {
+						verdict = fmt.Sprintf("FAIL domains-unique domain=%s in %s and %s", wire.Enc(d), wire.Enc(prev), wire.Enc(v.Name))
+					}
+					seen[k] = v.Name
+				}
+			}
+			if verdict == "" {
+				verdict = "OK"
+			}
+			o.Line(verdict)
+		}
+		verdict = ""
+	}
+	fail := func(format string, a ...any) {
+		if verdict == "" {
+			verdict = "FAIL " + fmt.Sprintf(format, a...)
+		}
+	}
+	for _, f := range lines {
+		func() {
+			defer func() {
+				if r := recover(); r != nil {
+					fail("crash op=%s", f[0])
+				}
+			}()
+			switch {
+			case f[0] == "case":
+				flush()
+				started = true
+				s.reset()
+			case s.apply(f):
+			case f[0] == "build":
+				s.build(atoi(f[1]))
+			case f[0] == "dom":
+				hostname, pd := wire.Dec(f[1]), wire.Dec(f[8])
+				if len(wire.DecList(f[2])) > 0 || strings.HasSuffix(hostname, ".") || strings.HasPrefix(hostname, ".") {
+					return // aliases have their own names; malformed hostnames are outside the clause
+				}
+				_, alts := realDomains(hostname, nil, f[4] == "1", wire.Dec(f[5]), atoi(f[6]), atoi(f[7]), pd, f[9] == "1")
+				for _, a := range alts {
+					if !altHostSound(a, hostname, pd) {
+						fail("alt-host-sound alt=%s host=%s proxyDomain=%s", wire.Enc(a), wire.Enc(hostname), wire.Enc(pd))
+					}
+				}
+			case f[0] == "sel":
+				s.vhStep("vhosts", f)
+				a := asciiLower(wire.Dec(f[1]))
+				got := selectVHostRef(s.vh.vhosts, wire.Dec(f[1]))
+				for _, v := range s.vh.vhosts {
+					for _, d := range v.Domains {
+						if asciiLower(d) == a && got != v {
+							fail("select-exact authority=%s owner=%s", f[1], wire.Enc(v.Name))
+						}
+					}
+				}
+			case f[0] == "sreq":
+				q := parseReq(f)
+				acc := s.vh.acc
+				sorted := istioroute.SortVHostRoutes(acc)
+				if sortSafe(acc, istioroute.IsCatchAllRoute, q) && showDecision(evalRoutes(sorted, q)) != showDecision(evalRoutes(acc, q)) {
+					fail("sortvhost-sound sorted=%s unsorted=%s", showDecision(evalRoutes(sorted, q)), showDecision(evalRoutes(acc, q)))
+				}
+				// catch-all routes must match every request (catchall_sound on the real routes)
+				for _, rt := range acc {
+					if istioroute.IsCatchAllRoute(rt) && !routeMatches(rt.Match, q) {
+						fail("catchall-sound route=%s", wire.Enc(rt.Name))
+					}
+				}
+				// the sort is a permutation keeping the relative order of the non-catch-all routes
+				var a, b []string
+				for _, rt := range acc {
+					if !istioroute.IsCatchAllRoute(rt) {
+						a = append(a, showRoute(rt))
+					}
+				}
+				for _, rt := range sorted {
+					if !istioroute.IsCatchAllRoute(rt) {
+						b = append(b, showRoute(rt))
+					}
+				}
+				if strings.Join(a, " ") != strings.Join(b, " ") || len(sorted) != len(acc) {
+					fail("sortvhost-order")
+				}
+			default:
+				s.vhStep("vhosts", f)
+			}
+		}()
+	}
+	flush()
+	_ = sort.Strings
+	_ = os.Stderr
+}
